@@ -1,6 +1,7 @@
 package props
 
 import (
+	"math/big"
 	"bytes"
 	"encoding/hex"
 	"fmt"
@@ -849,13 +850,44 @@ func nextC01L2(g *sim.G, i int) *sim.Op {
 	}
 }
 
+// c01l2Prelude: quorums far above what the random histories reach (33 of 36, 70 of 70), honest attestations through
+// all three entry points: the handlers must accept what the verifier accepts, whatever the size.
+func c01l2Prelude() []*sim.Case {
+	var out []*sim.Case
+	for _, nt := range [][2]int{{36, 33}, {70, 70}} {
+		gs := enumGenesis([4]int{0, 1, 2, 3})
+		gs.Attesters = nil
+		var ks []*attest.Key
+		for i := 0; i < nt[0]; i++ {
+			gs.Attesters = append(gs.Attesters, attest.K(i).Spelling(i%6))
+			ks = append(ks, attest.K(i))
+		}
+		gs.Threshold = uint32(nt[1])
+		attest.SortByAddr(ks)
+		signers := ks[:nt[1]]
+		by := sim.Acct(4)
+		in, _ := refcodec.EncodeMessage(&refcodec.Message{Version: 0, Source: 7, Dest: 4, Nonce: 5, Sender: sim.Pad32([]byte{1}), Recip: sim.Pad32([]byte{2}), Caller: make([]byte, 32), Body: []byte("large quorum")})
+		own, _ := refcodec.EncodeMessage(&refcodec.Message{Version: 0, Source: 4, Dest: 1, Nonce: 6, Sender: sim.Pad32(sim.AcctBytes(4)), Recip: sim.Pad32([]byte{3}), Caller: make([]byte, 32), Body: []byte{1}})
+		body, _ := refcodec.EncodeBurn(&refcodec.Burn{Version: 0, BurnToken: attest.Keccak([]byte("uusdc")), MintRecip: sim.Pad32([]byte{9}), Amount: big.NewInt(5), MsgSender: sim.Pad32(sim.AcctBytes(4))})
+		dep, _ := refcodec.EncodeMessage(&refcodec.Message{Version: 0, Source: 4, Dest: 0, Nonce: 7, Sender: sim.Pad32(sim.ModuleAddrBytes()), Recip: sim.Pad32([]byte{0xbb, 1}), Caller: make([]byte, 32), Body: body})
+		att := func(m []byte) []byte { return attest.Attest(m, signers, attest.SigStyle{}) }
+		out = append(out, &sim.Case{Gen: gs, Ops: []*sim.Op{
+			sim.TxOp("recv", &types.MsgReceiveMessage{From: by, Message: in, Attestation: att(in)}).WithMeta("plan", "honest").WithMeta("anyvalid", "1"),
+			sim.TxOp("replace", &types.MsgReplaceMessage{From: by, OriginalMessage: own, OriginalAttestation: att(own), NewMessageBody: []byte{2}, NewDestinationCaller: make([]byte, 32)}).WithMeta("plan", "honest").WithMeta("anyvalid", "1"),
+			sim.TxOp("repdep", &types.MsgReplaceDepositForBurn{From: by, OriginalMessage: dep, OriginalAttestation: att(dep), NewDestinationCaller: make([]byte, 32), NewMintRecipient: sim.Pad32([]byte{8})}).WithMeta("plan", "honest").WithMeta("anyvalid", "1"),
+		}})
+	}
+	return out
+}
+
 var C01L2 = register(&HistProp{ID: "C01",
 	Genesis: func(t *rapid.T) *sim.GenSpec {
 		g := sim.DrawGenesis(t, sim.GenOpts{NoPause: true, MaxAtt: 6, NoAttesters: true})
 		g.MaxBody = 8000
 		return g
 	},
-	Next: nextC01L2, MinOps: 4, MaxOps: 30, New: func() Checker { return &c01l2{} },
+	Prelude: c01l2Prelude,
+	Next:    nextC01L2, MinOps: 4, MaxOps: 30, New: func() Checker { return &c01l2{} },
 	Require: []string{"nontrivial", "receive-message:accepted", "replace-message:accepted", "receive-message:rejected-attestation", "replace-message:rejected-attestation", "replace-deposit-for-burn:accepted", "replace-deposit-for-burn:rejected-attestation", "signed-before-rotation", "plan:honest", "plan:tampered", "plan:rolled-back-enable", "plan:rolled-back-disable"}})
 
 // Native fuzz target (thorough): attestation bytes against a fixed configuration, reference verifier as oracle.
